@@ -412,6 +412,12 @@ def materialize(exe, st, it):
     """All elements the iterator will still yield: [(state, [values])] (closures may fork paths)."""
     if isinstance(it, VRef):
         it = exe.deref(st, it)
+    if isinstance(it, VAgg) and len(it.fields) == 2 and all(isinstance(x, VInt) for x in it.fields):
+        # a Range with concrete bounds
+        a, b = _concrete(it.fields[0].e), _concrete(it.fields[1].e)
+        if a is None or b is None or b - a > 64:
+            raise PathEnd("iteration over a range with symbolic or large bounds")
+        return [(st, [VInt(z3.BitVecVal(k, it.fields[0].bits), it.fields[0].bits, it.fields[0].signed) for k in range(a, max(a, b))])]
     if not isinstance(it, VIter):
         raise PathEnd("not an iterator: %r" % (it,))
     if it.kind == "slice":
@@ -586,7 +592,9 @@ def iterator_summaries(exe, st, f, bb, c, args, dest_ty):
         return None
     # ---- terminal operations ---------------------------------------------------------
     m = re.search(r" as Iterator>::(sum|collect|count|max_by_key|max|any|all|fold)(?:::<.*>)?$", c)
-    if m and isinstance(_deref_all(exe, st, args[0]), VIter):
+    _it0 = _deref_all(exe, st, args[0]) if m else None
+    if m and (isinstance(_it0, VIter) or (m.group(1) in ("any", "all") and isinstance(_it0, VAgg) and len(_it0.fields) == 2
+                                          and all(isinstance(x, VInt) for x in _it0.fields))):
         op = m.group(1)
         it = _deref_all(exe, st, args[0])
         if op == "count" and it.kind == "filter":
